@@ -101,6 +101,7 @@ type PathCtx struct {
 	inBlock     bool
 	tryDepth    int
 	atomicVals  map[value]*value
+	syncMaps    map[value]*[]*amapEnt
 	tryEffects  int
 	randN, randRun int
 	pins        map[*Term]uint64
